@@ -1,173 +1,10 @@
 import Gengo.Model.LocalName
-/-! regenerated from pkg/namer/std.list by the extractor (here: by hand, at design time) -/
+import Gengo.Gen.StdList
+/-! Facts about the std table, evaluated in the kernel over `Gengo.Gen.stdPaths`, which tools/extract
+regenerates from pkg/namer/std.list on every run: an edit to std.list re-checks them. -/
 namespace Gengo.LocalName
 
-def stdPaths : List Str := [
-  ['a','r','c','h','i','v','e','/','t','a','r'],
-  ['a','r','c','h','i','v','e','/','z','i','p'],
-  ['b','u','f','i','o'],
-  ['b','y','t','e','s'],
-  ['c','m','p'],
-  ['c','o','m','p','r','e','s','s','/','b','z','i','p','2'],
-  ['c','o','m','p','r','e','s','s','/','f','l','a','t','e'],
-  ['c','o','m','p','r','e','s','s','/','g','z','i','p'],
-  ['c','o','m','p','r','e','s','s','/','l','z','w'],
-  ['c','o','m','p','r','e','s','s','/','z','l','i','b'],
-  ['c','o','n','t','a','i','n','e','r','/','h','e','a','p'],
-  ['c','o','n','t','a','i','n','e','r','/','l','i','s','t'],
-  ['c','o','n','t','a','i','n','e','r','/','r','i','n','g'],
-  ['c','o','n','t','e','x','t'],
-  ['c','r','y','p','t','o'],
-  ['c','r','y','p','t','o','/','a','e','s'],
-  ['c','r','y','p','t','o','/','c','i','p','h','e','r'],
-  ['c','r','y','p','t','o','/','d','e','s'],
-  ['c','r','y','p','t','o','/','d','s','a'],
-  ['c','r','y','p','t','o','/','e','c','d','h'],
-  ['c','r','y','p','t','o','/','e','c','d','s','a'],
-  ['c','r','y','p','t','o','/','e','d','2','5','5','1','9'],
-  ['c','r','y','p','t','o','/','e','l','l','i','p','t','i','c'],
-  ['c','r','y','p','t','o','/','h','m','a','c'],
-  ['c','r','y','p','t','o','/','m','d','5'],
-  ['c','r','y','p','t','o','/','r','a','n','d'],
-  ['c','r','y','p','t','o','/','r','c','4'],
-  ['c','r','y','p','t','o','/','r','s','a'],
-  ['c','r','y','p','t','o','/','s','h','a','1'],
-  ['c','r','y','p','t','o','/','s','h','a','2','5','6'],
-  ['c','r','y','p','t','o','/','s','h','a','5','1','2'],
-  ['c','r','y','p','t','o','/','s','u','b','t','l','e'],
-  ['c','r','y','p','t','o','/','t','l','s'],
-  ['c','r','y','p','t','o','/','x','5','0','9'],
-  ['c','r','y','p','t','o','/','x','5','0','9','/','p','k','i','x'],
-  ['d','a','t','a','b','a','s','e','/','s','q','l'],
-  ['d','a','t','a','b','a','s','e','/','s','q','l','/','d','r','i','v','e','r'],
-  ['d','e','b','u','g','/','b','u','i','l','d','i','n','f','o'],
-  ['d','e','b','u','g','/','d','w','a','r','f'],
-  ['d','e','b','u','g','/','e','l','f'],
-  ['d','e','b','u','g','/','g','o','s','y','m'],
-  ['d','e','b','u','g','/','m','a','c','h','o'],
-  ['d','e','b','u','g','/','p','e'],
-  ['d','e','b','u','g','/','p','l','a','n','9','o','b','j'],
-  ['e','m','b','e','d'],
-  ['e','n','c','o','d','i','n','g'],
-  ['e','n','c','o','d','i','n','g','/','a','s','c','i','i','8','5'],
-  ['e','n','c','o','d','i','n','g','/','a','s','n','1'],
-  ['e','n','c','o','d','i','n','g','/','b','a','s','e','3','2'],
-  ['e','n','c','o','d','i','n','g','/','b','a','s','e','6','4'],
-  ['e','n','c','o','d','i','n','g','/','b','i','n','a','r','y'],
-  ['e','n','c','o','d','i','n','g','/','c','s','v'],
-  ['e','n','c','o','d','i','n','g','/','g','o','b'],
-  ['e','n','c','o','d','i','n','g','/','h','e','x'],
-  ['e','n','c','o','d','i','n','g','/','j','s','o','n'],
-  ['e','n','c','o','d','i','n','g','/','p','e','m'],
-  ['e','n','c','o','d','i','n','g','/','x','m','l'],
-  ['e','r','r','o','r','s'],
-  ['e','x','p','v','a','r'],
-  ['f','l','a','g'],
-  ['f','m','t'],
-  ['g','o','/','a','s','t'],
-  ['g','o','/','b','u','i','l','d'],
-  ['g','o','/','b','u','i','l','d','/','c','o','n','s','t','r','a','i','n','t'],
-  ['g','o','/','c','o','n','s','t','a','n','t'],
-  ['g','o','/','d','o','c'],
-  ['g','o','/','d','o','c','/','c','o','m','m','e','n','t'],
-  ['g','o','/','f','o','r','m','a','t'],
-  ['g','o','/','i','m','p','o','r','t','e','r'],
-  ['g','o','/','p','a','r','s','e','r'],
-  ['g','o','/','p','r','i','n','t','e','r'],
-  ['g','o','/','s','c','a','n','n','e','r'],
-  ['g','o','/','t','o','k','e','n'],
-  ['g','o','/','t','y','p','e','s'],
-  ['g','o','/','v','e','r','s','i','o','n'],
-  ['h','a','s','h'],
-  ['h','a','s','h','/','a','d','l','e','r','3','2'],
-  ['h','a','s','h','/','c','r','c','3','2'],
-  ['h','a','s','h','/','c','r','c','6','4'],
-  ['h','a','s','h','/','f','n','v'],
-  ['h','a','s','h','/','m','a','p','h','a','s','h'],
-  ['h','t','m','l'],
-  ['h','t','m','l','/','t','e','m','p','l','a','t','e'],
-  ['i','m','a','g','e'],
-  ['i','m','a','g','e','/','c','o','l','o','r'],
-  ['i','m','a','g','e','/','c','o','l','o','r','/','p','a','l','e','t','t','e'],
-  ['i','m','a','g','e','/','d','r','a','w'],
-  ['i','m','a','g','e','/','g','i','f'],
-  ['i','m','a','g','e','/','j','p','e','g'],
-  ['i','m','a','g','e','/','p','n','g'],
-  ['i','n','d','e','x','/','s','u','f','f','i','x','a','r','r','a','y'],
-  ['i','o'],
-  ['i','o','/','f','s'],
-  ['i','o','/','i','o','u','t','i','l'],
-  ['i','t','e','r'],
-  ['l','o','g'],
-  ['l','o','g','/','s','l','o','g'],
-  ['l','o','g','/','s','y','s','l','o','g'],
-  ['m','a','p','s'],
-  ['m','a','t','h'],
-  ['m','a','t','h','/','b','i','g'],
-  ['m','a','t','h','/','b','i','t','s'],
-  ['m','a','t','h','/','c','m','p','l','x'],
-  ['m','a','t','h','/','r','a','n','d'],
-  ['m','a','t','h','/','r','a','n','d','/','v','2'],
-  ['m','i','m','e'],
-  ['m','i','m','e','/','m','u','l','t','i','p','a','r','t'],
-  ['m','i','m','e','/','q','u','o','t','e','d','p','r','i','n','t','a','b','l','e'],
-  ['n','e','t'],
-  ['n','e','t','/','h','t','t','p'],
-  ['n','e','t','/','h','t','t','p','/','c','g','i'],
-  ['n','e','t','/','h','t','t','p','/','c','o','o','k','i','e','j','a','r'],
-  ['n','e','t','/','h','t','t','p','/','f','c','g','i'],
-  ['n','e','t','/','h','t','t','p','/','h','t','t','p','t','e','s','t'],
-  ['n','e','t','/','h','t','t','p','/','h','t','t','p','t','r','a','c','e'],
-  ['n','e','t','/','h','t','t','p','/','h','t','t','p','u','t','i','l'],
-  ['n','e','t','/','h','t','t','p','/','p','p','r','o','f'],
-  ['n','e','t','/','m','a','i','l'],
-  ['n','e','t','/','n','e','t','i','p'],
-  ['n','e','t','/','r','p','c'],
-  ['n','e','t','/','r','p','c','/','j','s','o','n','r','p','c'],
-  ['n','e','t','/','s','m','t','p'],
-  ['n','e','t','/','t','e','x','t','p','r','o','t','o'],
-  ['n','e','t','/','u','r','l'],
-  ['o','s'],
-  ['o','s','/','e','x','e','c'],
-  ['o','s','/','s','i','g','n','a','l'],
-  ['o','s','/','u','s','e','r'],
-  ['p','a','t','h'],
-  ['p','a','t','h','/','f','i','l','e','p','a','t','h'],
-  ['p','l','u','g','i','n'],
-  ['r','e','f','l','e','c','t'],
-  ['r','e','g','e','x','p'],
-  ['r','e','g','e','x','p','/','s','y','n','t','a','x'],
-  ['r','u','n','t','i','m','e'],
-  ['r','u','n','t','i','m','e','/','c','o','v','e','r','a','g','e'],
-  ['r','u','n','t','i','m','e','/','d','e','b','u','g'],
-  ['r','u','n','t','i','m','e','/','m','e','t','r','i','c','s'],
-  ['r','u','n','t','i','m','e','/','p','p','r','o','f'],
-  ['r','u','n','t','i','m','e','/','r','a','c','e'],
-  ['r','u','n','t','i','m','e','/','t','r','a','c','e'],
-  ['s','l','i','c','e','s'],
-  ['s','o','r','t'],
-  ['s','t','r','c','o','n','v'],
-  ['s','t','r','i','n','g','s'],
-  ['s','t','r','u','c','t','s'],
-  ['s','y','n','c'],
-  ['s','y','n','c','/','a','t','o','m','i','c'],
-  ['s','y','s','c','a','l','l'],
-  ['t','e','s','t','i','n','g'],
-  ['t','e','s','t','i','n','g','/','f','s','t','e','s','t'],
-  ['t','e','s','t','i','n','g','/','i','o','t','e','s','t'],
-  ['t','e','s','t','i','n','g','/','q','u','i','c','k'],
-  ['t','e','s','t','i','n','g','/','s','l','o','g','t','e','s','t'],
-  ['t','e','x','t','/','s','c','a','n','n','e','r'],
-  ['t','e','x','t','/','t','a','b','w','r','i','t','e','r'],
-  ['t','e','x','t','/','t','e','m','p','l','a','t','e'],
-  ['t','e','x','t','/','t','e','m','p','l','a','t','e','/','p','a','r','s','e'],
-  ['t','i','m','e'],
-  ['t','i','m','e','/','t','z','d','a','t','a'],
-  ['u','n','i','c','o','d','e'],
-  ['u','n','i','c','o','d','e','/','u','t','f','1','6'],
-  ['u','n','i','c','o','d','e','/','u','t','f','8'],
-  ['u','n','i','q','u','e'],
-  ['u','n','s','a','f','e']
+abbrev stdPaths : List Str := Gengo.Gen.stdPaths
 ]
 
 /-- every std short name is a valid non-keyword identifier (kernel evaluation of the whole table) -/
